@@ -32,12 +32,17 @@ def ensure_build():
     fcntl.flock(lock, fcntl.LOCK_EX)
     try:
         h = hashlib.sha1()
-        for root in ("coq", "ocaml"):
-            for d, dirs, files in sorted(os.walk(os.path.join(VERIF, root))):
-                dirs[:] = sorted(x for x in dirs if x not in ("gen", "Gen"))
-                for f in sorted(files):
-                    if f.endswith(".v") or f == "_CoqProject" or f == "modelrun.ml":
-                        h.update(f.encode()); h.update(open(os.path.join(d, f), "rb").read())
+        # the hand-written development = the files listed in coq/_CoqProject (generated coq/Gen files excluded: they are
+        # regenerated and re-checked per property), plus the OCaml driver and the build description
+        proj = os.path.join(VERIF, "coq", "_CoqProject")
+        files = [proj, os.path.join(VERIF, "ocaml", "modelrun.ml"), os.path.join(VERIF, "Makefile"),
+                 os.path.join(VERIF, "coq", "Extract", "Extract.v")]
+        for line in open(proj).read().split():
+            if line.endswith(".v") and not line.startswith("Gen/"):
+                files.append(os.path.join(VERIF, "coq", line))
+        for f in files:
+            h.update(f.encode())
+            h.update(open(f, "rb").read() if os.path.exists(f) else b"<missing>")
         stamp = os.path.join(VERIF, ".build.stamp")
         cur = h.hexdigest()
         if os.path.exists(stamp) and open(stamp).read() == cur and os.path.exists(os.path.join(VERIF, "ocaml", "modelrun")):
